@@ -120,7 +120,7 @@ void do_bind(State& s, int slot, int akind, int pkind, int c)
 		case 2: req = sa::ip::address_v4::any(); break;
 		case 3: req = sa::ip::address_v6::any(); break;
 		case 4: req = s.w->topo.addrs_of((x.node + 1) % (s.nnodes + 1))[0]; break; // another node's (or the probe node's) address
-		default: req = x.v6 ? address(sa::ip::make_address_v4("10.0.1.1")) : address(sa::ip::make_address_v6("fd00::1:1")); break;
+		default: req = x.v6 ? Topology::node_addr(0, 0, 0) : Topology::node_addr(0, 1, 0); break;
 	}
 	int port = 0;
 	switch (pkind)
